@@ -29,6 +29,7 @@ class Recorder:
         self.next_outcome = ('none',)
         self.pending_app = None
         self.ep = None
+        self.on_close_calls = 0
         self._install_class_wrappers()
         self._make_endpoint()
 
@@ -99,6 +100,9 @@ class Recorder:
                 rec.eff('handler', 'HOnError', b'', bytes(payload.data or b''))
                 if rec.next_outcome[0] == 'raise':
                     raise RuntimeError('handler failed')
+
+            async def on_close(self, rsocket, exception=None):
+                rec.on_close_calls += 1          # not part of the trace: counted for C11
         return H
 
     def _install_class_wrappers(rec):
